@@ -328,6 +328,15 @@ DEFOP(pop) {
             w.stats.probes["patch_huge_index"]++;
         }
     }
+    if ((tweak % 23) == 0) {
+        // a pointer text that is not a JSON pointer at all (no leading '/'): only the robustness clause applies to such a patch
+        for (MVal *k : op->kids)
+            if ((k->key == "path" || (k->key == "from" && (tweak & 1))) && k->type == T_STRING && !k->str.empty() && k->str[0] == '/') {
+                k->str = ((tweak / 23) % 3 == 0 || k->str.size() < 2 || k->str[1] == '/') ? std::string("nopointer") : k->str.substr(1);   // never "" (the whole document) and never another valid pointer
+                if (k->str.find('/') == std::string::npos) w.stats.probes["patch_pointer_without_any_slash"]++;
+                w.pending_corrupt = true;
+            }
+    }
     if ((tweak % 17) == 0) {  // missing member
         size_t victim = (size_t)(tweak / 17) % op->kids.size();
         MVal *v = op->kids[victim];
